@@ -81,6 +81,11 @@ func indepDecode(codec string, z []byte) ([]byte, error) {
 		if err != nil {
 			return nil, err
 		}
+		if m != int(n) {
+			// Cassandra's framing: the prefix IS the uncompressed length (its own decompressor demands
+			// exactly that many bytes); since the repair of KF-C18-1 gocql's wrapper says the same
+			return nil, fmt.Errorf("block decodes to %d bytes, prefix says %d", m, n)
+		}
 		return dst[:m], nil
 	}
 	panic("harness: unknown codec " + codec)
